@@ -242,10 +242,16 @@ func (c *channel) Writev(p [][]byte) (n int64, err error) {
 	// sync write
 	c.writeLock.Lock()
 	defer c.writeLock.Unlock()
-	if n, err = c.transport.Writev(p); nil == err {
+	if n, err = c.transport.Writev(cloneVector(p)); nil == err {
 		err = c.transport.Flush()
 	}
 	return
+}
+
+// cloneVector copies the slice headers of p (not the bytes): the transport consumes the vector
+// it is given (net.Buffers.WriteTo sets the elements to nil), the caller's vector must stay as it is.
+func cloneVector(p [][]byte) [][]byte {
+	return append(make([][]byte, 0, len(p)), p...)
 }
 
 // Write1 to write []byte to channel
@@ -309,7 +315,7 @@ func (c *channel) CtxWritev(ctx context.Context, pv [][]byte) (n int64, err erro
 		defer c.transport.SetWriteDeadline(time.Time{})
 	}
 
-	if n, err = c.transport.Writev(pv); nil == err {
+	if n, err = c.transport.Writev(cloneVector(pv)); nil == err {
 		err = c.transport.Flush()
 	}
 	return
